@@ -17,7 +17,9 @@ def all_domains():
 # which property a failing judgement belongs to (the codes partition all failures)
 def attribute(why, step):
     op = step["op"]
-    if why in ("other-register-changed", "stutter-changed-meaning", "differs-from-paired-replay", "twin-copies-differ") or op == "copy":
+    if why in ("other-register-changed", "stutter-changed-meaning", "differs-from-paired-replay", "twin-copies-differ") or op in ("copy", "normalize", "minimize", "query"):
+        # copies and the stuttering operations (C16: "read-only queries or explicit normalisation/minimisation never change
+        # what a value describes"): any judgement that fails at such a step belongs to C16
         return "C16"
     if op in ("widen", "widenjoin", "narrow"):
         return "C05"
